@@ -119,7 +119,7 @@ pub fn run(prop: &str, thorough: bool, seed: u64, threads: usize) -> Option<Inpu
     let over = std::env::var("GCVERIF_CASES").ok().and_then(|s| s.parse::<u64>().ok());
     match prop {
         "C17" => {
-            let n = over.unwrap_or(if thorough { 600_000 } else { 24_000 });
+            let n = over.unwrap_or(if thorough { 3_000_000 } else { 300_000 });
             let max = if thorough { 40 } else { 20 };
             let r = inputs::sharded("C17", || lcase_strategy(max), n, seed, threads, layout_outcome, |c| serde_json::to_string(c).unwrap());
             Some(InputReport {
@@ -132,7 +132,7 @@ pub fn run(prop: &str, thorough: bool, seed: u64, threads: usize) -> Option<Inpu
             })
         }
         "C18" => {
-            let n = over.unwrap_or(if thorough { 600_000 } else { 24_000 });
+            let n = over.unwrap_or(if thorough { 3_000_000 } else { 300_000 });
             let max = if thorough { 24 } else { 12 };
             let r = inputs::sharded("C18", || bcase_strategy(max), n, seed, threads, builders_outcome, |c| serde_json::to_string(c).unwrap());
             Some(InputReport {
@@ -154,7 +154,7 @@ pub fn run(prop: &str, thorough: bool, seed: u64, threads: usize) -> Option<Inpu
                     break;
                 }
             }
-            let n = over.unwrap_or(if thorough { 400_000 } else { 24_000 });
+            let n = over.unwrap_or(if thorough { 3_000_000 } else { 300_000 });
             let r = inputs::sharded("C16", icase_strategy, n, seed, threads, impls_outcome, |c| serde_json::to_string(c).unwrap());
             Some(InputReport {
                 result: r,
